@@ -177,6 +177,7 @@ type Item struct {
 	Sym  string // symbol declared/defined (Decl, Def)
 	Text string
 	Note string // provenance of an assumption (for evidence)
+	Init bool   // fact about the initial version of a heap component (emitted right after the declarations)
 	Key  string // keyed assumption: only relevant when this symbol is needed (frame axioms, component facts)
 	syms []string
 }
